@@ -108,6 +108,7 @@ Definition sstep (s : spec) (o : op) : spec * obs :=
                 (Some (firstn k sto)), (st_ok, []))
         end
       end
+  | ONil m => (s, if (m =? 0)%Z then (st_ok, nil_string) else (st_runtime, []))
   end.
 
 Fixpoint srun (s : spec) (l : list op) : list view :=
@@ -118,7 +119,7 @@ Fixpoint srun (s : spec) (l : list op) : list view :=
    change neither the layout nor the last-read kind and count as queries here) was a Grow *)
 Definition next_g (g : bool) (o : op) : bool :=
   match o with
-  | OLen | OBytes | OString | OCap | ReWrite _ _ => g
+  | OLen | OBytes | OString | OCap | ReWrite _ _ | ONil _ => g
   | Grow n => if (n <? 0)%Z then g else true
   | _ => false
   end.
